@@ -1,5 +1,5 @@
 \* scenario generation: every scenario of the scope (initial states only), printed as JSON
 CONSTANTS NPods = 2  PodArchs = {1,2,3,4,5,6,7,8,9,10,11,12}  Catalogs = {1,2,3,4}  PoolSets = {1,2,3,4,5}  Existings = {0,1,2,3}  Daemons = {0,1,2,3}
-CONSTANTS W_Avail = TRUE  W_Overhead = TRUE  W_Ports = TRUE  W_KeepTerm = TRUE  W_Override = TRUE  W_Refilter = TRUE
+CONSTANTS W_Avail = TRUE  W_Overhead = TRUE  W_Ports = TRUE  W_KeepTerm = TRUE  W_Override = TRUE  W_Refilter = TRUE  W_InitTaints = TRUE
 SPECIFICATION GenSpec
 INVARIANTS GenPrint
